@@ -28,9 +28,9 @@ pub fn generate(seed: u64, n: usize, tier: &str, skip: &str, base_files: &[Vec<u
     let mut rng = SplitMix64(seed);
 
     if !skip.contains("hdr") {
-        gen_headers(&mut rng, n, out);
+        gen_headers(&mut rng, n, thorough, out);
     }
-    gen_constants(&mut rng, n, out);
+    gen_constants(&mut rng, n, thorough, out);
 
     // ---------------- whole-file byte mutations through Model::load (run-time observation only)
     let reps = if thorough { 40 } else { 6 };
@@ -92,7 +92,7 @@ pub fn generate(seed: u64, n: usize, tier: &str, skip: &str, base_files: &[Vec<u
     }
 }
 
-fn gen_headers(rng: &mut SplitMix64, n: usize, out: &mut impl Write) {
+fn gen_headers(rng: &mut SplitMix64, n: usize, thorough: bool, out: &mut impl Write) {
     let mut rng = SplitMix64(rng.next());
     // ---------------- headers
     for total in [0usize, 3, 4, 7, 8, 15, 16, 23, 24, 31, 32, 33, 64, 100] {
@@ -101,7 +101,8 @@ fn gen_headers(rng: &mut SplitMix64, n: usize, out: &mut impl Write) {
         b.truncate(total);
         writeln!(out, "hdr:{}", hex(&b)).unwrap();
     }
-    for total in [32u64, 40, 64] {
+    let totals: &[u64] = if thorough { &[32, 40, 64] } else { &[40] };
+    for &total in totals {
         let near: Vec<u64> = vec![total - 1, total, total + 1, total - 32, total - 31, total.wrapping_sub(33), u64::MAX - total + 1, u64::MAX - 31];
         let vals: Vec<u64> = U64X.iter().copied().chain(near).collect();
         for &mo in &vals {
@@ -144,10 +145,12 @@ fn gen_headers(rng: &mut SplitMix64, n: usize, out: &mut impl Write) {
 
 }
 
-fn gen_constants(rng: &mut SplitMix64, n: usize, out: &mut impl Write) {
+fn gen_constants(rng: &mut SplitMix64, n: usize, thorough: bool, out: &mut impl Write) {
     let mut rng = SplitMix64(rng.next());
     // ---------------- .rten constants
     let dtypes = ["f32", "i32", "i8", "u8"];
+    // systematic families: all four element types in the thorough tier, one of each size otherwise
+    let sys_dtypes: &[&str] = if thorough { &["f32", "i32", "i8", "u8"] } else { &["f32", "u8"] };
     let esize = |d: &str| if d == "f32" || d == "i32" { 4u64 } else { 1 };
     // shapes whose true product is small, huge, or wraps modulo 2^64
     let shapes: Vec<Vec<u64>> = vec![
@@ -157,7 +160,7 @@ fn gen_constants(rng: &mut SplitMix64, n: usize, out: &mut impl Write) {
         vec![1 << 31, 1 << 31, 4, 3], vec![1 << 16, 1 << 16, 1 << 16, 1 << 16, 5], vec![(1 << 32) - 1, 0],
         vec![1 << 31, 1 << 31, 2], vec![1 << 30, 1 << 30, 16, 7], vec![3, 1 << 31, 1 << 31, 4],
     ];
-    for dt in dtypes {
+    for &dt in sys_dtypes {
         for sh in &shapes {
             let true_prod: u128 = sh.iter().fold(1u128, |p, &d| p.saturating_mul(d as u128));
             let wrapped = sh.iter().fold(1u64, |p, &d| p.wrapping_mul(d));
